@@ -1523,6 +1523,9 @@ def run(ctx: Ctx) -> None:
         safe(ctx, "namededges", gen_namededges(rng), batch)
     for _ in range(ctx.n(100, 1500)):
         safe(ctx, "floorset", gen_floorset(rng), batch)
+    nopins = gen_floorset(rng)          # always at least one instance without pins (exception class compared)
+    nopins["pins"], nopins["p2b"] = [], []
+    safe(ctx, "floorset", nopins, batch)
     for _ in range(ctx.n(120, 2000)):
         safe(ctx, "solnet", gen_solnet(rng), batch)
     for _ in range(ctx.n(100, 1500)):
